@@ -104,7 +104,7 @@ func buildCorpus(c *fw.Ctx) *builtCorpus {
 	}
 	// everything that influences the runner binary goes into the key
 	repoHash, _ := exec.Command("bash", "-c", "cd /repo && { git rev-parse HEAD; git diff HEAD -- . ':!example' ':!cmd' ; git status --porcelain -- . ':!example'; } | sha256sum").Output()
-	harnessHash, _ := exec.Command("bash", "-c", "cd /verif/harness && cat gencheck/*.go internal/prng/*.go | sha256sum").Output()
+	harnessHash, _ := exec.Command("bash", "-c", "cd /verif/harness && cat gencheck/*.go internal/prng/*.go cmd/corr/gen.go internal/genpipe/*.go | sha256sum").Output()
 	key := genpipe.Key(bc.gens, string(repoHash), string(harnessHash))
 	bc.dir = filepath.Join(cache, "gen", key)
 	bc.bin = filepath.Join(bc.dir, "run.bin")
@@ -189,6 +189,15 @@ func (bc *builtCorpus) usable(g *genpipe.Generated) bool {
 	id := g.Schema.ID + "/" + g.Variant.Name()
 	if !g.Variant.FM || g.GenError != "" || !bc.compiled[id] {
 		return false
+	}
+	// a response that names one output file twice (open finding B15) leaves a message type without
+	// methods: reported by C16, unusable here
+	seen := map[string]bool{}
+	for _, f := range g.FMFiles {
+		if seen[f] {
+			return false
+		}
+		seen[f] = true
 	}
 	if g.Variant.Runtime == "gogo" && !bc.compiled[g.Schema.ID+"/gogoplain"] {
 		return false
